@@ -28,10 +28,16 @@ class normalize_slice__slice:
     def ensures(result, idx, dim, k):
         r = same_selection(result, dim, idx, dim, k)
         r["step-ok"] = S.step_ok(result)
+        r["canonical"] = norm_bounds(result, dim)  # what _slice_1d / new_blockdim require
         return r
 
     def ghost_domain(idx, dim):
         return {"k": range(0, dim + 1)}
+
+    def domain(tier, rng):
+        for dim in range(0, 7 if tier == "quick" else 12):
+            for s in small_slices(tier):
+                yield {"idx": s, "dim": dim}
 
 
 @contract(f"{UTILS}::posify_index", spec="int", props=["C12", "C13"])
@@ -213,9 +219,11 @@ class compose_slices:
         return {"k": range(0, dim_size + 1)}
 
     def domain(tier, rng):
-        vals = [None, -9, -2, -1, 0, 1, 2, 3, 5, 9]
-        steps = [None, -2, -1, 1, 2, 3]
-        for n in range(0, 7):
+        if tier == "quick":
+            vals, steps, dims = [None, -3, -1, 0, 2, 5], [None, -2, -1, 1, 3], (0, 1, 3, 5)
+        else:
+            vals, steps, dims = [None, -9, -2, -1, 0, 1, 2, 3, 5, 9], [None, -2, -1, 1, 2, 3], range(0, 7)
+        for n in dims:
             for a in small_slices(tier, vals, steps):
                 for b in small_slices(tier, vals, steps):
                     yield {"outer_slice": a, "inner_slice": b, "dim_size": n}
